@@ -36,7 +36,16 @@ RULE = ("files of n in {1..6,8,12,20} lines (GFF3 and GTF) whose features have /
         "(there 'autoincrement:X' means X_n), children naming them as Parent, what an interpretation would give probed as "
         "absent, two or three features with the same such value under merge_strategy 'error' / 'create_unique'; (dict "
         "subclasses) defaultdict, a subclass with __missing__, OrderedDict, a plain subclass and a subclass with an aliasing "
-        "__getitem__/get/__contains__ as id_spec, in create_db and/or only in update(id_spec=...). non-trivial = >= 2 different derivation branches taken in "
+        "__getitem__/get/__contains__ as id_spec, in create_db and/or only in update(id_spec=...); (successive updates) 2-4 "
+        "update() calls in a row through ONE FeatureDB object (create_db's or a freshly opened one; sometimes reopened in "
+        "between, for contrast), each adding features that mostly lack the id attribute, after a first import that auto-numbered "
+        "nothing (every feature had its id attribute: empty autoincrements table) or that already handed out counters, under "
+        "each of the five merge strategies (all keys distinct: nothing may collide, be overwritten or merged into); (keys of "
+        "other types) after every import each sampled stored key is looked up as a str-subclass instance (must find it), as "
+        "bytes in utf-8 / latin-1 / utf-16 through the handle under test and through second handles opened with "
+        "default_encoding latin-1 and utf-8 (absent: FeatureNotFoundError), and - numeric-looking keys - as int (either "
+        "FeatureNotFoundError or the feature stored under str(int)); ids of an 'encoding' family ('\u00e9', '\u00c3\u00a9', ...) make the "
+        "bytes of one key decode to another stored key. non-trivial = >= 2 different derivation branches taken in "
         "one file (or a rejected multi-valued id), or a handle whose position holds another id; distinct = distinct "
         "(format, spec, path, file content, script)")
 REQUIRED = ["imports", "keys compared with the reference derivation", "lookups db[key]", "lookups db[feature]",
@@ -55,7 +64,19 @@ REQUIRED = ["imports", "keys compared with the reference derivation", "lookups d
             # dict subclasses
             "dict defaultdict: default_factory", "dict defaultdict: item", "dict missing: __missing__",
             "dict missing: __missing__ raised KeyError", "dict ordered: item", "dict ordered: no item", "dict subclass: item",
-            "dict getitem: aliasing __getitem__", "update(id_spec=...) under another id_spec than create_db"]
+            "dict getitem: aliasing __getitem__", "update(id_spec=...) under another id_spec than create_db",
+            # several update() calls in a row through one FeatureDB object
+            "successive: 2nd or later update() through the same FeatureDB object",
+            "successive: 2nd or later update() through an object opened while the autoincrements table was empty",
+            "successive: auto-numbered keys, 2nd or later update(), object opened on an empty autoincrements table",
+            "successive: 2nd or later update() through an object opened on a database that had counters",
+            "successive: handle reopened between two update() calls",
+            "successive: sequences completed with every key as id_spec dictates",
+            # keys of other types
+            "str-subclass keys spelling a stored key looked up", "bytes keys spelling a stored key probed",
+            "bytes keys: FeatureNotFoundError", "bytes keys probed through a handle with default_encoding latin-1",
+            "bytes keys whose decoding under the handle's default_encoding is ANOTHER stored key",
+            "int keys for numeric-looking stored keys probed"]
 REQUIRED_CLASSES = ["fmt=gff3", "fmt=gtf"] + ["form=" + f for f in G.FORMS] + ["form=confusable"] + [
     "branch=attribute#0", "branch=attribute#1", "branch=column", "branch=fallback", "branch=dict:no entry->fallback",
     "branch=dict:entry absent->fallback", "branch=callable:None->fallback", "branch=callable:autoincrement",
@@ -64,7 +85,9 @@ REQUIRED_CLASSES = ["fmt=gff3", "fmt=gtf"] + ["form=" + f for f in G.FORMS] + ["
     "stale: changed through another handle", "stale op=delete top", "stale op=update", "stale op=replace"] + [
     "form=dict-subclass:" + c for c in G.DICT_CLASSES] + ["form=special:" + f for f in G.SPECIAL_FORMS] + [
     "dict id_spec class=" + c for c in G.DICT_CLASSES] + ["update(id_spec=...) differs from create_db's id_spec",
-    "equal id values: strategy=error", "equal id values: strategy=create_unique"]
+    "equal id values: strategy=error", "equal id values: strategy=create_unique", "confusable=encoding",
+    "successive: first import auto-numbered nothing", "successive: first import handed out counters"] + [
+    "successive: strategy=" + st for st in G.STRATEGIES]
 ASSUMPTIONS = [
     "inputs on which the derived keys collide are not judged (the key would then be altered by the merge strategy, "
     "which is C05's subject); they are skipped and counted",
@@ -89,6 +112,12 @@ ASSUMPTIONS = [
     "later ones under '<key>_1', '<key>_2' (skipped when that name is the key of another feature)",
     "update(id_spec=...) may differ from create_db's id_spec: each batch is keyed by the id_spec of its call, the "
     "'<featuretype>_<n>' counters go on",
+    "the counters go on across any number of update() calls, whichever FeatureDB object makes them; when all keys are distinct "
+    "the merge strategy has nothing to decide, so the stored features are exactly the input lines under every strategy",
+    "keys are text: a str-subclass instance spelling a stored key is that key; a bytes object (in whatever encoding, through a "
+    "handle of whatever default_encoding) is not a stored key, hence absent -> FeatureNotFoundError; the statement does not say "
+    "whether an int spells the decimal text: db[12] may raise FeatureNotFoundError or return the feature stored under '12', "
+    "never one stored under another key ('012', '12.0')",
 ]
 QUICK_SHARDS = 4
 THOROUGH_SHARDS = 16
@@ -188,7 +217,8 @@ def execute(ctx, case):
     fmt, spec = case["fmt"], case["spec"]
     batches = case["batches"]
     collide = case.get("kind") == "collide"
-    strategy = case["strategy"] if collide else "error"
+    strategy = case["strategy"] if collide else (case.get("ustrategy") or "error")
+    successive = bool(case.get("ustrategy"))
     # ---- reference derivation, batch by batch, one set of counters
     deriver = None
     plan = []
@@ -247,9 +277,11 @@ def execute(ctx, case):
         kw_update.pop("id_spec", None)
         if case["spec2"]["form"] != "none":
             kw_update["id_spec"] = real_spec(case["spec2"])
-    if collide:
+    if collide or successive:
         kw_create["merge_strategy"] = strategy
     db = None
+    run_len = 0          # update() calls made through the current handle since it was opened
+    empty_at_open = None
     try:
         expected, recs_so_far = [], []
         for bi, (b, r) in enumerate(zip(batches, plan)):
@@ -266,9 +298,31 @@ def execute(ctx, case):
                 if bi == 0:
                     db = gffutils.create_db(data, dbfn, from_string=from_string, **kw_create)
                     ctx.mon("imports")
+                    if successive and case.get("handle") == "FeatureDB" and dbfn != ":memory:":
+                        db.conn.close()
+                        db = gffutils.FeatureDB(dbfn)
+                    if successive:
+                        empty_at_open = not dbdump.dump_db(db)["autoincrements"]
                 else:
+                    if successive and (case.get("reopen_before") or [])[bi - 1:bi] == [True] and dbfn != ":memory:":
+                        db.conn.close()
+                        db = gffutils.FeatureDB(dbfn)
+                        run_len = 0
+                        empty_at_open = not dbdump.dump_db(db)["autoincrements"]
+                        ctx.mon("successive: handle reopened between two update() calls")
                     db.update(data, from_string=from_string, make_backup=False, merge_strategy=strategy, **kw_update)
                     ctx.mon("update() imports")
+                    if successive:
+                        run_len += 1
+                        fresh = sum(1 for x in r["branches"] if "fallback" in x or x == "callable:autoincrement")
+                        if run_len >= 2:
+                            ctx.mon("successive: 2nd or later update() through the same FeatureDB object")
+                            ctx.mon("successive: auto-numbered keys handed out by a 2nd or later update() through the same object", fresh)
+                            if empty_at_open:
+                                ctx.mon("successive: 2nd or later update() through an object opened while the autoincrements table was empty")
+                                ctx.mon("successive: auto-numbered keys, 2nd or later update(), object opened on an empty autoincrements table", fresh)
+                            else:
+                                ctx.mon("successive: 2nd or later update() through an object opened on a database that had counters")
                     if case.get("spec2"):
                         ctx.mon("update(id_spec=...) under another id_spec than create_db")
             except Exception as ex:
@@ -312,6 +366,11 @@ def execute(ctx, case):
                 compare(ctx, case, db, expected, recs_so_far, branches, deriver, "after reopen")
             for name, n in deriver.stats.items():
                 ctx.mon(name, n)
+            if successive:
+                ctx.mon("successive: sequences completed with every key as id_spec dictates")
+                ctx.classes["successive: strategy=" + strategy] += 1
+                first_auto = any("fallback" in x or x == "callable:autoincrement" for x in plan[0]["branches"])
+                ctx.classes["successive: first import " + ("handed out counters" if first_auto else "auto-numbered nothing")] += 1
             if collide and final != [list(r["keys"]) for r in plan]:
                 ctx.mon("equal id values collide: create_unique files '<key>_n'")
                 if MC.looks_special(case.get("dup") or ""):
@@ -445,6 +504,120 @@ def compare(ctx, case, db, expected, recs, branches, deriver, what):
             ctx.violation(case, {"why": "%s: absent %s does not raise FeatureNotFoundError" % (what, how), "key": k,
                                  "returned": None if got is None else str(got), "stored": sorted(stored)[:20]})
             return False
+    return other_types(ctx, case, db, ids, what)
+
+
+class _Str(str):
+    """A str subclass: an instance IS the text it spells."""
+
+
+def _decimal(k):
+    """int spelled by a numeric-looking key ('12', '01', '+1', ' 7'), else None."""
+    try:
+        return int(k)
+    except ValueError:
+        return None
+
+
+def other_types(ctx, case, db, ids, what):
+    """
+    Look-ups with objects of other types that spell a stored key.  A str subclass instance is that text: it finds the
+    feature.  A bytes object is not a stored key (keys are text): it is absent -> FeatureNotFoundError, through handles
+    of either default_encoding.  An int: the statement does not say whether 12 spells the key '12' - FeatureNotFoundError
+    and the feature stored under str(12) are both accepted.  Never a feature stored under a different key.
+    """
+    import gffutils
+
+    stored = set(ids)
+    family = [k for k in (case.get("probe") or ()) if k in stored]
+    sample = list(dict.fromkeys((ids if len(ids) <= 5 else ids[:2] + ids[-3:]) + family))
+    handles = [("the handle under test", db, getattr(db, "default_encoding", "utf-8"))]
+    extra = []
+    if isinstance(db.dbfn, str) and db.dbfn != ":memory:" and os.path.exists(db.dbfn):
+        for enc in ("latin-1", "utf-8"):
+            try:
+                h = gffutils.FeatureDB(db.dbfn, default_encoding=enc)
+            except Exception as ex:
+                ctx.violation(case, {"why": "%s: FeatureDB(path, default_encoding=%r) raised %r" % (what, enc, ex)})
+                return False
+            extra.append(h)
+            handles.append(("a second handle with default_encoding=%r" % enc, h, enc))
+    try:
+        for k in sample:
+            # ---- str subclass
+            for hname, h, enc in handles[:2]:
+                ctx.mon("str-subclass keys spelling a stored key looked up")
+                try:
+                    g = h[_Str(k)]
+                except Exception as ex:
+                    ctx.violation(case, {"why": "%s: db[<str subclass instance spelling a stored key>] raised %s" % (what, type(ex).__name__),
+                                         "key": k, "through": hname})
+                    return False
+                if g is None or g.id != k:
+                    ctx.violation(case, {"why": "%s: db[<str subclass instance>] does not return the feature stored under that text" % what,
+                                         "key": k, "returned id": getattr(g, "id", None), "through": hname})
+                    return False
+            # ---- bytes
+            spellings = []
+            for codec in ("utf-8", "latin-1", "utf-16-le"):
+                try:
+                    b = k.encode(codec)
+                except UnicodeError:
+                    continue
+                if b not in spellings:
+                    spellings.append(b)
+            for b in spellings:
+                for hname, h, enc in handles:
+                    ctx.mon("bytes keys spelling a stored key probed")
+                    if h is not db and enc != "utf-8":
+                        ctx.mon("bytes keys probed through a handle with default_encoding latin-1")
+                    try:
+                        other = b.decode(enc)
+                    except UnicodeError:
+                        other = None
+                    if other is not None and other != k and other in stored:
+                        ctx.mon("bytes keys whose decoding under the handle's default_encoding is ANOTHER stored key")
+                    try:
+                        g = h[b]
+                    except gffutils.FeatureNotFoundError:
+                        ctx.mon("bytes keys: FeatureNotFoundError")
+                        continue
+                    except Exception as ex:
+                        ctx.violation(case, {"why": "%s: a bytes key (absent: the stored keys are text) raises %s instead of FeatureNotFoundError" % (
+                            what, type(ex).__name__), "key": repr(b), "through": hname, "stored": sorted(stored)[:20]})
+                        return False
+                    gid = getattr(g, "id", None)
+                    ctx.violation(case, {"why": "%s: db[bytes] returns a feature (%s); nothing is stored under a bytes object: FeatureNotFoundError expected" % (
+                        what, "the one stored under ANOTHER key than the text these bytes were encoded from" if gid != k else
+                        "the one stored under the text the bytes spell"), "key": repr(b), "spells": k, "returned id": gid, "through": hname,
+                        "stored": sorted(stored)[:20]})
+                    return False
+            # ---- int
+            n = _decimal(k)
+            if n is not None:
+                ctx.mon("int keys for numeric-looking stored keys probed")
+                try:
+                    g = db[n]
+                except gffutils.FeatureNotFoundError:
+                    ctx.mon("int keys: FeatureNotFoundError")
+                except Exception as ex:
+                    ctx.skip("int key: db[int] raised %s (statement silent on int keys)" % type(ex).__name__)
+                else:
+                    gid = getattr(g, "id", None)
+                    if gid != str(n):
+                        ctx.violation(case, {"why": "%s: db[int] returns a feature stored under a key that is not the decimal spelling of the int" % what,
+                                             "key": n, "returned id": gid, "stored": sorted(stored)[:20]})
+                        return False
+                    if str(n) == k:
+                        ctx.mon("int keys: the feature stored under the int's decimal spelling returned (statement silent: accepted)")
+                    else:
+                        ctx.mon("int keys: numeric-looking key that is not the decimal spelling ('01', '+1'): the other stored key str(int) returned (accepted)")
+    finally:
+        for h in extra:
+            try:
+                h.conn.close()
+            except Exception:
+                pass
     return True
 
 
@@ -623,8 +796,9 @@ def account(ctx, case, branches):
     if case.get("kind") == "collide":
         ctx.classes["equal id values: strategy=" + case["strategy"]] += 1
     text = "".join(text_of(b, case["fmt"]) for b in case["batches"])
-    ctx.case((case["fmt"], case["spec"], case.get("spec2"), case.get("strategy"), len(case["batches"]), case["infer"], case.get("keys"), text),
-             len(kinds) >= 2 or outcome == "reject" or bool(case.get("family")) or bool(case.get("special")),
+    ctx.case((case["fmt"], case["spec"], case.get("spec2"), case.get("strategy"), len(case["batches"]), case["infer"], case.get("keys"), text,
+              case.get("ustrategy"), case.get("handle"), str(case.get("reopen_before"))),
+             len(kinds) >= 2 or outcome == "reject" or bool(case.get("family")) or bool(case.get("special")) or len(case["batches"]) >= 3,
              sample={"fmt": case["fmt"], "spec": case["spec"], "spec2": case.get("spec2"), "branches": kinds, "keys": case.get("keys"),
                      "text": text[:500]})
 
@@ -650,6 +824,15 @@ def run(ctx):
             branches = execute(ctx, case)
             if branches is not None:
                 account(ctx, case, branches)
+    # several update() calls in a row through one FeatureDB object: each strategy x {empty autoincrements table, counters}
+    # on every shard first, then free choice
+    combos = [(st, start) for st in G.STRATEGIES for start in ("keyed", "counters")]
+    for i in range(ctx.budget(260, 5000)):
+        st, start = combos[i % len(combos)] if i < 2 * len(combos) else (None, None)
+        case = G.gen_successive_case(rng, strategy=st, start=start)
+        branches = execute(ctx, case)
+        if branches is not None:
+            account(ctx, case, branches)
     for _ in range(ctx.budget(240, 4500)):
         case = G.gen_stale_case(rng)
         stats = execute(ctx, case)
@@ -683,7 +866,11 @@ MANIFEST = {
             "a callable's special return values ('autoincrement:X', ':seqid:') must be the key verbatim under every non-callable "
             "spec form, keep their children, and collide when equal; dict id_spec objects of five dict subclasses (defaultdict, "
             "__missing__, OrderedDict, plain, aliasing __getitem__) must be asked with d[featuretype], in create_db and in "
-            "update(id_spec=...).",
+            "update(id_spec=...). Sequences of 2-4 update() calls through one FeatureDB object (first import with / without "
+            "auto-numbered keys, every merge strategy, optional reopen in between) must keep counting '<featuretype>_<n>' and leave "
+            "every stored feature as imported. Every sampled stored key is also looked up as a str-subclass instance (found), as bytes "
+            "in several encodings through handles of default_encoding utf-8 / latin-1 (FeatureNotFoundError) and, when numeric-looking, "
+            "as int (FeatureNotFoundError or the feature stored under str(int)).",
     "note": "Trusted: gvmon/models/C04.py, the reference renderer, icontract. Inputs whose derived keys collide are "
             "skipped (C05 judges them).",
 }
